@@ -5,14 +5,16 @@ TRUSTED = ["CBMC library model of strcmp (used by is_filename_sane)",
            "malloc never returns overlapping objects (CBMC memory model)"]
 ASSUMPTIONS = [
     "strings shorter than 4096 bytes (thorough tier; 256 bytes in the quick tier) for the unbounded-loop proofs; the buffer size is symbolic below that cap",
-    "the equivalence with the independent spec (fails iff '..', output equals spec, clean, idempotent, sane iff) is a bounded stand-in: all byte strings up to the stated length, not counted as proved",
+    "the equivalence of canonicalize_name with the independent spec (fails iff '..', output equals spec, clean, idempotent) is a bounded stand-in: all byte strings up to the stated length, not counted as proved",
+    "is_filename_sane 'true <=> not ., not .., no /' (sane_iff_unb) is discharged through the scan loop's contract for every string of length <= 255 (quick) / <= 4095 (thorough) in a fixed-size object; 'first NUL' is a quantifier over that constant range expanded by the SAT back end; sane_iff (len<=12 by unwinding) is kept as an independent bounded cross-check",
     "function contract of canonicalize_name is enforced by the harness (assume/assert), not by --dfcc: dfcc plus nested pointer loop contracts does not terminate in symex (tool limit)",
     "call sites that funnel names through these functions are covered by C06/C07 obligations, not here",
     "Windows branch of is_filename_sane is preprocessed away",
 ]
 EXPLANATION = ("loop contracts on the five loops of canonicalize_name.c and the scan loop of "
                "filename_sane.c give safety/termination/no-growth for all lengths; the functional "
-               "equivalence with a spec function is bounded symbolic execution")
+               "equivalence of canonicalize_name with a spec function is bounded symbolic execution; the "
+               "is_filename_sane equivalence is proved through the loop contract (sane_iff_unb)")
 
 def _lens(lo, hi, tier):
     return [dict(id="len%d" % n, defines={"LEN": n}, tier=tier, unwind=n + 3)
@@ -48,6 +50,10 @@ HARNESSES = [
              "get_filename": None},   # in fstree_from_file_stream, not reachable from the harness
          cases=[dict(id=k, defines={"KEYWORD": '"%s"' % k, "PATH_LEN": 3}, tier="quick")
                 for k in ("dir", "slink", "link", "nod", "pipe", "sock", "file", "glob")]),
+    dict(name="sane_iff_unb", file="sane_iff_unb.c", loops=["is_filename_sane"],
+         label="proved", timeout=900, unwindset=["strcmp.0:4"],
+         cases=[dict(id="n255", defines={"SANE_N": 255}, tier="quick"),
+                dict(id="n4095", defines={"SANE_N": 4095}, tier="thorough")]),
     dict(name="sane_iff", file="sane_iff.c", label="bounded(len<=12)",
          timeout=900,
          cases=[dict(id="len%d" % n, defines={"LEN": n}, tier="quick", unwind=n + 3)
